@@ -326,3 +326,10 @@ func checkedIndex(idx value, n int) int64 {
 
 // SmtCtx exposes the term context shared by the interpreter.
 func SmtCtx() *smt.Ctx { return sctx }
+
+// TermCount is the size of the hash-consed term table.
+func TermCount() int { return len(sctx.Terms) }
+
+// ResetTerms drops all terms (only legal between paths: the rolled-back heap
+// holds no symbolic values). The caller must start a fresh solver.
+func ResetTerms() { sctx = smt.NewCtx() }
